@@ -653,8 +653,13 @@ func (s *Service) streamResponse(clientCtx, upstreamCtx context.Context, w http.
 	// resp.Body.Read blocks, so readDeadline is only looked at between reads and a backend that
 	// stops sending mid-response would never be noticed. Close the upstream body when no read
 	// completes within the read timeout: the blocked Read returns an error and the stream ends.
-	stallGuard := time.AfterFunc(s.configuration.GetReadTimeout(), func() { _ = resp.Body.Close() })
+	// The guard is armed only while a Read is in progress: the time this loop spends writing to a
+	// slow client is not silence of the backend and must not end the stream.
+	upstreamBody := resp.Body
+	stallGuard := time.AfterFunc(s.configuration.GetReadTimeout(), func() { _ = upstreamBody.Close() })
+	stallGuard.Stop()
 	defer stallGuard.Stop()
+	resp.Body = &stallGuardedBody{ReadCloser: upstreamBody, guard: stallGuard, deadline: readDeadline, timeout: s.configuration.GetReadTimeout()}
 
 	for {
 		// Check for context cancellation
@@ -673,7 +678,6 @@ func (s *Service) streamResponse(clientCtx, upstreamCtx context.Context, w http.
 			}
 		}
 		readDeadline.Reset(s.configuration.GetReadTimeout())
-		stallGuard.Reset(s.configuration.GetReadTimeout())
 
 		// Read and process data
 		if err := s.processStreamData(resp, buffer, state, w, isStreaming, rc, rlog); err != nil {
@@ -684,6 +688,31 @@ func (s *Service) streamResponse(clientCtx, upstreamCtx context.Context, w http.
 			return state.totalBytes, state.lastChunk, err
 		}
 	}
+}
+
+// stallGuardedBody arms the stall guard for the duration of each upstream Read.
+type stallGuardedBody struct {
+	io.ReadCloser
+	guard    *time.Timer
+	deadline *time.Timer
+	timeout  time.Duration
+}
+
+// Read arms the guard while the upstream Read is in progress and, once it has returned, also
+// disarms the loop's read deadline: that timer is looked at after the write to the client, and
+// a client that is slow to take the data would otherwise look like a backend that was slow to
+// send it.
+func (b *stallGuardedBody) Read(p []byte) (int, error) {
+	b.guard.Reset(b.timeout)
+	n, err := b.ReadCloser.Read(p)
+	b.guard.Stop()
+	if b.deadline != nil && !b.deadline.Stop() {
+		select {
+		case <-b.deadline.C:
+		default:
+		}
+	}
+	return n, err
 }
 
 // GetStats returns current proxy statistics
